@@ -2,11 +2,15 @@
 Model of `FileFilter::create` (src/file_filter.rs 39-109) and of the removal loop of
 `rewrite_paths` (src/path_rewriting.rs 373-386), plus the specification vocabulary of C16.
 
-Trusted parameters (DESIGN.md section 4): `Regex::is_match` is a per-line Boolean – the model
+Trusted parameters (DESIGN.md section 4): `Regex::is_match` is a per-line Boolean – `create`
 receives, for every source line, the six match bits; `std::fs::read_to_string` is the Boolean
-`readable` (false: missing file, directory, or bytes that are not UTF-8). A "source line" is what
-`file.split('\n')` yields with one trailing `\r` removed: the text after the last LF counts as a
-line, so a file that ends with a newline has one extra, empty, last line.
+`readable` (false: missing file, directory, or bytes that are not UTF-8).
+Line splitting is modelled (`stripFinalLF`, `splitLF`, `splitSrc`, `stripCR`, `sourceBits`,
+`createSrc`, with the six regexes as six predicates on a line): since /repo f854858 a "source
+line" is what `file.strip_suffix('\n').unwrap_or(&file).split('\n')` yields with one trailing `\r`
+removed. Exactly ONE final LF is dropped before splitting, so a text that ends with a newline has
+as many pieces as it has lines (`realLines`); a text ending in two newlines has an empty last
+line; only the empty text still has one (empty) piece although it has no line.
 Core Lean only: linked into the native driver `gm_c16`.
 -/
 import GrcovModel.Merge
@@ -178,5 +182,67 @@ def FT.num : FT → Nat
   | .line n => n
   | .branch n => n
   | .both n => n
+
+/-! ## Line splitting (file_filter.rs 57-65): `file.strip_suffix('\n')…split('\n')`,
+`strip_suffix('\r')` -/
+
+/-- put `b` in front of the first piece -/
+def consHead (b : Nat) : List (List Nat) → List (List Nat)
+  | [] => [[b]]
+  | p :: ps => (b :: p) :: ps
+
+/-- `str::split('\n')`: the pieces between line feeds. Never empty; a text that ends with a line
+feed (and the empty text) has an empty last piece. -/
+def splitLF : List Nat → List (List Nat)
+  | [] => [[]]
+  | b :: bs => if b = 10 then [] :: splitLF bs else consHead b (splitLF bs)
+
+/-- `line.strip_suffix('\r').unwrap_or(line)`: one trailing CR removed -/
+def stripCR (l : List Nat) : List Nat := if l.getLast? = some 13 then l.dropLast else l
+
+/-- the six compiled regexes as predicates on one line (`Regex::is_match`, trusted) -/
+structure Rx where
+  line : List Nat → Bool
+  start : List Nat → Bool
+  stop : List Nat → Bool
+  brLine : List Nat → Bool
+  brStart : List Nat → Bool
+  brStop : List Nat → Bool
+
+def Rx.bits (rx : Rx) (l : List Nat) : Bits :=
+  ⟨rx.line l, rx.start l, rx.stop l, rx.brLine l, rx.brStart l, rx.brStop l⟩
+
+/-- `file.strip_suffix('\n').unwrap_or(&file)`: exactly one final line feed removed -/
+def stripFinalLF (src : List Nat) : List Nat :=
+  if src.getLast? = some 10 then src.dropLast else src
+
+/-- the pieces the pass enumerates (file_filter.rs 57-60, since /repo f854858) -/
+def splitSrc (src : List Nat) : List (List Nat) := splitLF (stripFinalLF src)
+
+/-- the match bits of every piece of the source, in order -/
+def sourceBits (rx : Rx) (src : List Nat) : List Bits :=
+  (splitSrc src).map fun p => rx.bits (stripCR p)
+
+/-- `FileFilter::create` on a file: `none` = `read_to_string` fails -/
+def createSrc (o : Opts) (rx : Rx) (src : Option (List Nat)) : List FT :=
+  match src with
+  | none => create o false []
+  | some s => create o true (sourceBits rx s)
+
+/-- the number of lines of the text as every other reader counts them (`str::lines`, `wc -l` for
+a text that ends with a newline, gcov, grcov's own html.rs 475), written with the plain
+`split('\n')`: the empty piece after a final LF, and the single empty piece of an empty text, are
+not lines -/
+def realLines (src : List Nat) : Nat :=
+  if src = [] ∨ src.getLast? = some 10 then (splitLF src).length - 1 else (splitLF src).length
+
+/-- `p` occurs in `l` as a contiguous block: a regex that is a plain literal -/
+def hasSub (p : List Nat) : List Nat → Bool
+  | [] => p.isEmpty
+  | x :: xs => p.isPrefixOf (x :: xs) || hasSub p xs
+
+/-- six literal markers (the conventional `LCOV_EXCL_*` configuration) -/
+def Rx.ofLiterals (a b c d e f : List Nat) : Rx :=
+  ⟨hasSub a, hasSub b, hasSub c, hasSub d, hasSub e, hasSub f⟩
 
 end Grcov.FileFilter
